@@ -402,6 +402,21 @@ fn generate(seed: u64, n: usize, tier: &str, out: &mut impl Write) {
             writeln!(out, "T|npy|{}|{}|c|1|61", dt, fmt_shape(&sh)).unwrap();
         }
     }
+    // header-length sweep: shape [k, 1, 1, ...] with k of 1-3 digits and rank 2..=25 gives dimension
+    // texts of every length 4..=75, so the unpadded header length takes EVERY residue mod 64
+    // (including 0, where the padding must be 0 and not 64). Pure text arithmetic: tiny tensors.
+    let sweep_dts = ["i32", "u8", "f64", "i16", "bool", "u64", "f32"];
+    let mut j = 0usize;
+    for rank in 2..=25usize {
+        for k in [2usize, 10, 100] {
+            let mut sh = vec![1usize; rank];
+            sh[0] = k;
+            let dt = sweep_dts[j % sweep_dts.len()];
+            j += 1;
+            writeln!(out, "T|npy|{}|{}|c|{}|61", dt, fmt_shape(&sh), rng.next() >> 1).unwrap();
+            writeln!(out, "T|npz|i32|{}|p|{}|{}", fmt_shape(&sh), rng.next() >> 1, hex(b"w.0")).unwrap();
+        }
+    }
     // npz / safetensors names incl. the empty base
     for name in ["", ".npy", ".npy.npy", "a", "a.npy", "a.npy.npy", "b/c.npy", ".npya", "npy.", "\u{1f600}.npy"] {
         writeln!(out, "T|npz|i32|2,2|c|7|{}", hex(name.as_bytes())).unwrap();
